@@ -5,6 +5,8 @@
     c03.spec.raw   script tx idx ht     Spec.legacySighash (ht ≥ 0) → same rendering
     c03.wrapper    script tx idx ht     Model.signatureHashBase     → digest-hex | err:<family>   (property-conforming)
     c03.wrapper.coded  script tx idx ht Model.signatureHashBaseAsCoded (with the witness-program assert, D17)
+                                        → <as coded>|<property-conforming>   (both answers; the harness accepts the
+                                          second only as the repaired state of known finding D17)
     c03.fad        script sig           Model.findAndDelete         → hex | err:<family>
     c03.spec.strip script               Spec.scriptCodeNoSep        → hex
     c03.spec.ops   script               Spec.ops                    → hex,hex,… | noparse
@@ -77,7 +79,8 @@ def handle (op : String) (args : List String) : Option String :=
   | "c03.wrapper.coded", [sc, tx, idx, ht] => some <|
       match parseHex? sc, TxFmt.parseTx? tx, parseNat? idx, parseInt? ht with
       | some sc, some tx, some idx, some ht =>
-          Res.render ((Model.Sighash.signatureHashBaseAsCoded sc tx idx ht).map toHex)
+          Res.render ((Model.Sighash.signatureHashBaseAsCoded sc tx idx ht).map toHex) ++ "|" ++
+            Res.render ((Model.Sighash.signatureHashBase sc tx idx ht).map toHex)
       | _, _, _, _ => badArgs
   | "c03.fad", [sc, sig] => some <|
       match parseHex? sc, parseHex? sig with
